@@ -709,10 +709,20 @@ void cmb_dataset_PACF(const struct cmb_dataset *dsp,
 }
 
 static void data_bar_print(FILE *fp,
-                           const double acfval,
+                           double acfval,
                            const uint16_t max_bar_width)
 {
-    cmb_assert_release((acfval >= -1.0) && (acfval <= 1.0));
+    /*
+     * The coefficient estimates use the number of overlapping pairs as divisor
+     * and can land somewhat outside [-1, 1] for high lags on short series.
+     * That is no reason to abort a report: clip the bar to full width.
+     */
+    if (acfval > 1.0) {
+        acfval = 1.0;
+    }
+    else if (!(acfval >= -1.0)) {
+        acfval = -1.0;
+    }
 
     const double bar_width = (double)max_bar_width * fabs(acfval);
     const uint16_t num_filled = (uint16_t)floor(bar_width);
